@@ -144,5 +144,28 @@ PROPS["C14"] = dict(
     assumptions=["receiver model follows RFC 6455 sections 5.2-5.5 and 7.4", "no extension negotiated in this check (RSV bits must be zero)"],
 )
 
+PROPS["C13"] = dict(
+    pkg="c13", level="exploration",
+    rule="sessions between a library client and a library server connected through the library's own handshake; messages written through every write API with generated partitions, buffer sizes, compression "
+         "settings; oracle = round trip + independent strict RFC 6455/7692 parser on the sniffed wire of each direction + RFC accept key; plus a deterministic size sweep; per-check rules under coverage.checks",
+    quick=dict(timeout=900), thorough=dict(shards=16, timeout=3000),
+    technique="property-based testing (rapid): round trip plus differential validation of the sniffed wire with an independent RFC 6455/7692 frame parser/inflater; deterministic boundary sweep",
+    level_text="Random exploration of sessions with shrinking and a deterministic sweep of sizes around every length-form and buffer boundary; multi-MiB messages only in the thorough tier.",
+    level_note="Trusts internal/ref/wsref (strict frame parser, RFC 7692 inflate via compress/flate) and the in-memory transport; both endpoints are the library, the wire is judged by the independent parser.",
+    assumptions=["internal/ref/wsref.ParseStrict encodes the sender-side rules of RFC 6455 section 5 and RFC 7692 section 7", "single goroutine: each message is read by the peer right after it was written"],
+)
+
+PROPS["C15"] = dict(
+    pkg="c15", level="exploration", race=True,
+    rule="histories with one data writer, a reader, up to four control-frame senders and an optional closer on one connection over a harness-owned transport whose script releases senders / yields / fails inside "
+         "individual transport write calls; the sniffed wire is parsed by the independent frame parser; plus a deterministic enumeration of every write API after a sent Close; per-check rules under coverage.checks",
+    quick=dict(timeout=900), thorough=dict(shards=8, timeout=3000),
+    technique="schedule-assisted property-based testing (rapid): generated transport scripts create the barging opportunities, independent frame parser + message model as oracle, Go race detector; deterministic after-close enumeration",
+    level_text="Exploration of transport-level schedules (which write call releases how many control senders, where Close lands, which call fails); a sender that could enter mid-frame will within the window if the "
+               "write lock is broken. Go-scheduler interleavings below the transport level are covered by the race detector and repetition only.",
+    level_note="Soundness does not depend on timing (correct code passes under every schedule); detection is schedule-assisted. Trusts internal/ref/wsref.ParseOne and the gated transport.",
+    assumptions=["a data race report, a crash of the test process or two goroutines inside the transport Write count as violations", "20 s without progress counts as a stall"],
+)
+
 NOT_APPLICABLE = {}
 HOOK_COMMITS = []
